@@ -92,8 +92,10 @@ def main():
         fired = [k for k, v in r.get("checks", {}).items() if v["fired"]]
         sig = next((v["signatures"][0] for v in r.get("checks", {}).values() if v["signatures"]), "")
         eq = index.get(r["name"], {}).get("equivalent")
-        lines.append(f"| {r['name']} | {','.join(r['properties'])} | {'yes' if r.get('upstream_pass') else 'NO: ' + str(r.get('upstream_suite', ''))[:40]} | "
-                     f"{'yes' if r.get('baseline_pass') else 'NO'} | {','.join(fired) or ('not caught: equivalent (' + eq + ')' if eq else '**MISSED**')} | {sig[:70]} |")
+        up = "not re-run in this audit (see results_first_run.json)" if "upstream_pass" not in r else ('yes' if r.get('upstream_pass') else 'NO: ' + str(r.get('upstream_suite', ''))[:40])
+        bl = "not re-run" if "baseline_pass" not in r else ('yes' if r.get('baseline_pass') else 'NO')
+        lines.append(f"| {r['name']} | {','.join(r['properties'])} | {up} | "
+                     f"{bl} | {','.join(fired) or ('not caught: equivalent (' + eq + ')' if eq else '**MISSED**')} | {sig[:70]} |")
     n = len(allr)
     c = sum(1 for r in allr if r.get("caught"))
     e = sum(1 for r in allr if not r.get("caught") and index.get(r["name"], {}).get("equivalent"))
